@@ -135,43 +135,56 @@ def settled : Life P → Bool
 
 end Life
 
-/-- Bob's circuit for the payment (circuit_map.go; C07 models the map itself). -/
+/-- Bob's circuit for the payment (circuit_map.go; C07 models the map itself). `closing` is the
+volatile `closed` set of the running switch; the keystone is a separate durable bit. -/
 inductive Circ where
-  | absent     -- never committed (or locally rejected)
-  | halfOpen   -- CommitCircuits done, no keystone
-  | opened     -- keystone set (Bob signed the outgoing add)
-  | closing    -- a response is on its way upstream (volatile `closed` set)
-  | deleted    -- DeleteCircuits after Bob signed the upstream resolution
+  | absent     -- no circuit (never committed, or never needed: local reject)
+  | pending    -- CommitCircuits done (half-open without keystone, open with keystone)
+  | closing    -- a response was accepted by closeCircuit/FailCircuit (volatile)
+  | deleted    -- DeleteCircuits / teardown
   deriving DecidableEq, Repr, Inhabited
+
+/-- location of an add in a forwarding package: (height, index). -/
+abbrev Ref := Nat × Nat
 
 structure Pair (P : Type) where
   up : Life P := .absent
   down : Life P := .absent
-  circ : Circ := .absent
-  /-- durable: FwdFilter bit of the add (set before forwarding). -/
+  -- durable: forwarding package of the incoming channel (bits of this add)
+  /-- the package was processed (SetFwdFilter written). -/
+  decided : Bool := false
+  /-- FwdFilter bit: the add was handed to the switch. -/
   fwdFilter : Bool := false
-  /-- durable: AckFilter bit of the add (set with Bob's signature of the upstream resolution). -/
+  /-- AckFilter bit. -/
   addAcked : Bool := false
-  /-- durable: the settle/fail entry of the outgoing channel's forwarding package. -/
+  -- durable: circuit map
+  circ : Circ := .absent
+  keystone : Bool := false
+  /-- the AddRef stored in the circuit (sourceRef of the packet that created it). -/
+  circRef : Option Ref := none
+  -- durable: channel state of the two links
+  /-- the upstream resolution contained in a commitment Bob signed AND persisted. -/
+  upDur : Option (Res P) := none
+  /-- ClosedCircuitKey persisted with that commitment, circuit not yet deleted. -/
+  delPending : Bool := false
+  /-- the outgoing add is contained in a commitment Bob signed and persisted. -/
+  downDur : Bool := false
+  -- durable: forwarding package of the outgoing channel
   resp : Option (Res P) := none
-  /-- durable: SettleFailFilter bit. -/
   respAcked : Bool := false
-  /-- volatile: the add packet sits in the outgoing link's mailbox. -/
+  -- volatile
+  /-- the add packet sits in the outgoing link's mailbox. -/
   mbAdd : Bool := false
-  /-- volatile: a response packet sits in the incoming link's mailbox. -/
+  /-- a response packet sits in the incoming link's mailbox. -/
   mbResp : Option (Res P) := none
+  /-- that packet carries a SettleFailRef (it came out of a forwarding package). -/
+  mbRef : Bool := false
+  /-- the AddRef (sourceRef) the pending upstream resolution will acknowledge. -/
+  respRef : Option Ref := none
   -- history variables
-  /-- valid preimages received on the outgoing htlc. -/
   known : List P := []
-  /-- every resolution message sent upstream (newest first). -/
   sentUp : List (Res P) := []
-  /-- upstream resolutions covered by a Bob signature. -/
-  signedUp : List (Res P) := []
-  /-- the outgoing add was covered by a Bob signature. -/
-  downCommitted : Bool := false
-  /-- number of update_add sent downstream. -/
   downAdds : Nat := 0
-  /-- environment flag: the downstream peer failed an htlc it had already fulfilled. -/
   envBad : Bool := false
   deriving Repr, DecidableEq
 
@@ -180,16 +193,28 @@ inductive Ev (P : Type) where
   | upAdd
   | downSettle (p : P)
   | downFail
-  -- commitment protocol, upstream channel (the peer is the offerer of `up`)
-  | upSigPeer | upRevPeer | upSigBob | upRevBob
-  -- commitment protocol, downstream channel (Bob is the offerer of `down`)
-  | downSigBob | downRevBob | downSigPeer | downRevPeer
-  -- Bob, internal
-  | setFwdFilter | commitCircuit | reforward | switchFail | refwdResp | ackDup
-  -- Bob, outputs
-  | localReject | sendDownAdd | relayUp (r : Res P)
-  -- retransmission after a reconnect of an update whose signature was not acknowledged
-  | resendUp | resendDown
+  | upSigPeer | upRevPeer | downSigPeer | downRevPeer
+  -- Bob, wire
+  | upSigBob | upRevBob | downSigBob | downRevBob
+  -- Bob, incoming link: processRemoteAdds
+  | decide (fwd : Bool)            -- SetFwdFilter (durable)
+  | localReject (ref : Ref)        -- sendHTLCError with the add's sourceRef
+  | commitCircuit (ref : Ref)      -- Switch.ForwardPackets / CommitCircuits = Add (durable)
+  | refwdFail (ref : Ref)          -- CommitCircuits = Fail (half-open circuit loaded from disk)
+  -- Bob, switch / outgoing link
+  | switchFail                     -- failAddPacket / mailbox FailAdd for a delivered add packet
+  | sendDownAdd                    -- AddHTLC + update_add
+  | openKeystone                   -- OpenCircuits (durable), before signing
+  | downSignPersist                -- SignNextCommitment persisted (outgoing add)
+  | refwdResp                      -- processRemoteSettleFails / reforwardResponses hand-over
+  | ackDup                         -- response for an unknown circuit: ack via pendingSettleFails
+  -- Bob, incoming link: responses
+  | relayUp (r : Res P)            -- SettleHTLC / FailHTLC accepted by the channel + wire message
+  | dropSpurious                   -- channel refuses (already resolved): cleanupSpuriousResponse
+  | upSignPersist                  -- SignNextCommitment persisted (AddRef/SettleFailRef acks, ClosedCircuitKey)
+  | deleteCircuit                  -- DeleteCircuits (durable), after the signature, before commit_sig is sent
+  -- retransmission after a reconnect
+  | resendUp | resendDown | resendDownAdd
   -- crash + restart of the node, reconnect of both channels
   | restart
   deriving Repr
@@ -203,51 +228,79 @@ def badSigned : Life P → Bool
   | .removing (.settle p) .signed => decide (H p ≠ hash)
   | _ => false
 
-def stepUpSigBob (s : Pair P) : Pair P :=
-  match s.up with
-  | .removing r .sent =>
-    { s with up := .removing r .signed
-             signedUp := r :: s.signedUp
-             addAcked := true
-             circ := if s.circ = .absent then .absent else .deleted
-             mbResp := none
-             respAcked := s.respAcked || decide (s.resp = some r) }
-  | _ => { s with up := s.up.sigR }
-
-def stepDownSigBob (s : Pair P) : Pair P :=
-  match s.down with
-  | .adding .sent => { s with down := .adding .signed, circ := .opened, downCommitted := true }
-  | _ => { s with down := s.down.sigO }
-
-def stepDownRevPeer (s : Pair P) : Pair P :=
-  match s.down with
-  | .removing r .csigned =>
-    if s.circ = .opened then
-      { s with down := .removed r, resp := some r, circ := .closing, mbResp := some r }
-    else
-      { s with down := .removed r, resp := some r }
-  | _ => { s with down := s.down.revR }
+/-- lnwallet `SettleHTLC` / `FailHTLC`: the htlc is in the log, has no modification yet, and a
+settle carries a matching preimage. (`up = locked` is "in the log, unmodified in memory",
+`upDur = none` is "no persisted modification".) -/
+def chanAccepts (s : Pair P) : Res P → Bool
+  | .settle p => decide (s.up = .locked) && s.upDur.isNone && decide (H p = hash)
+  | .fail => decide (s.up = .locked) && s.upDur.isNone
 
 def stepDownSettle (s : Pair P) (p : P) : Option (Pair P) :=
   if s.down = .locked then
     if H p = hash then
-      if s.circ = .opened then
+      -- pipelined to the switch: closeCircuit succeeds iff the circuit is open
+      if s.circ = .pending ∧ s.keystone = true then
         some { s with down := .removing (.settle p) .sent, known := p :: s.known,
-                      circ := .closing, mbResp := some (.settle p) }
+                      circ := .closing, mbResp := some (.settle p), mbRef := false,
+                      respRef := s.circRef }
       else
         some { s with down := .removing (.settle p) .sent, known := p :: s.known }
     else
       some { s with down := .removing (.settle p) .sent }
+  else if s.down = .removing (.settle p) .signed then some s   -- retransmission
   else none
+
+def stepDownRevPeer (s : Pair P) : Pair P :=
+  match s.down with
+  | .removing r .csigned => { s with down := .removed r, resp := some r }
+  | _ => { s with down := s.down.revR }
+
+def stepUpSigBob (s : Pair P) : Option (Pair P) :=
+  match s.up with
+  | .removing r .sent =>
+    -- commit_sig is sent after the commitment is persisted and the circuits are deleted
+    if s.upDur = some r ∧ s.delPending = false then some { s with up := .removing r .signed } else none
+  | _ => some { s with up := s.up.sigR }
+
+def stepDownSigBob (s : Pair P) : Option (Pair P) :=
+  match s.down with
+  | .adding .sent => if s.downDur = true then some { s with down := .adding .signed } else none
+  | _ => some { s with down := s.down.sigO }
+
+/-- `SignNextCommitment` persisted with an unsigned upstream resolution in the log. `ackSelf`:
+the AddRef ack lands on this pair's own bit (always, in the per-pair model). -/
+def stepUpSignPersist (s : Pair P) (ackSelf : Bool) : Option (Pair P) :=
+  match s.up with
+  | .removing r .sent =>
+    if s.upDur = none then
+      some { s with upDur := some r
+                    addAcked := s.addAcked || ackSelf
+                    respAcked := s.respAcked || s.mbRef
+                    delPending := if s.circ = .absent then false else true }
+    else none
+  | _ => none
+
+/-- `cleanupSpuriousResponse`: the channel refuses the response (htlc already resolved): ack the
+AddRef and the SettleFailRef of the packet, delete the circuit. -/
+def stepDropSpurious (s : Pair P) (ackSelf : Bool) : Option (Pair P) :=
+  match s.mbResp with
+  | some r =>
+    if chanAccepts H hash s r = false ∧ s.respRef.isSome then
+      some { s with addAcked := s.addAcked || ackSelf, respAcked := s.respAcked || s.mbRef, circ := .deleted,
+                    mbResp := none, mbRef := false, delPending := false }
+    else none
+  | none => none
 
 def stepRestart (s : Pair P) : Pair P :=
   { s with up := s.up.restart
            down := s.down.restart
            mbAdd := false
            mbResp := none
-           circ := match s.circ with
-             | .closing => if s.downCommitted then .opened else .halfOpen
-             | c => c }
+           mbRef := false
+           respRef := none
+           circ := if s.circ = .closing then .pending else s.circ
+           -- trimAllOpenCircuits: a keystone whose add was never committed is removed
+           keystone := s.keystone && s.downDur }
 
 /-- one step of the model; `none` = the event is not enabled in `s`. -/
 def step (s : Pair P) : Ev P → Option (Pair P)
@@ -259,53 +312,72 @@ def step (s : Pair P) : Ev P → Option (Pair P)
     else none
   | .upSigPeer => some { s with up := s.up.sigO }
   | .upRevPeer => some { s with up := s.up.revO }
-  | .upSigBob => some (stepUpSigBob s)
-  | .upRevBob => some { s with up := s.up.revR }
-  | .downSigBob => some (stepDownSigBob s)
-  | .downRevBob => if badSigned H hash s.down then none else some { s with down := s.down.revO }
   | .downSigPeer => some { s with down := s.down.sigR }
   | .downRevPeer => some (stepDownRevPeer s)
-  | .setFwdFilter =>
-    if s.up = .locked ∧ s.fwdFilter = false ∧ s.circ = .absent then some { s with fwdFilter := true } else none
-  | .commitCircuit =>
-    if s.up = .locked ∧ s.fwdFilter = true ∧ s.circ = .absent then
-      some { s with circ := .halfOpen, mbAdd := true }
+  | .upSigBob => stepUpSigBob s
+  | .upRevBob => some { s with up := s.up.revR }
+  | .downSigBob => stepDownSigBob s
+  | .downRevBob => if badSigned H hash s.down then none else some { s with down := s.down.revO }
+  | .decide fwd =>
+    if s.up = .locked ∧ s.decided = false then some { s with decided := true, fwdFilter := fwd } else none
+  | .localReject ref =>
+    if s.decided = true ∧ s.fwdFilter = false ∧ s.addAcked = false ∧ chanAccepts H hash s .fail = true then
+      some { s with up := .removing .fail .sent, sentUp := .fail :: s.sentUp, respRef := some ref }
     else none
-  | .reforward =>
-    if s.up = .locked ∧ s.fwdFilter = true ∧ s.addAcked = false ∧ s.circ = .halfOpen ∧
-        s.mbAdd = false ∧ s.mbResp = none ∧ s.down = .absent then
-      some { s with mbAdd := true }
+  | .commitCircuit ref =>
+    -- no look at the htlc itself: the forwarding package is the only input
+    if s.decided = true ∧ s.fwdFilter = true ∧ s.addAcked = false ∧ (s.circ = .absent ∨ s.circ = .deleted) then
+      some { s with circ := .pending, circRef := some ref, mbAdd := true }
+    else none
+  | .refwdFail ref =>
+    if s.decided = true ∧ s.fwdFilter = true ∧ s.addAcked = false ∧ s.circ = .pending ∧
+        s.keystone = false ∧ s.mbAdd = false ∧ s.mbResp = none ∧ s.down = .absent then
+      some { s with circ := .closing, mbResp := some .fail, mbRef := false, respRef := some ref }
     else none
   | .switchFail =>
-    if s.circ = .halfOpen ∧ s.down = .absent ∧ s.mbResp = none then
-      some { s with mbAdd := false, circ := .closing, mbResp := some .fail }
+    if s.mbAdd = true ∧ s.circ = .pending ∧ s.keystone = false then
+      some { s with mbAdd := false, circ := .closing, mbResp := some .fail, mbRef := false,
+                    respRef := s.circRef }
+    else none
+  | .sendDownAdd =>
+    if s.mbAdd = true then
+      some { s with down := .adding .sent, mbAdd := false, downAdds := s.downAdds + 1 }
+    else none
+  | .openKeystone =>
+    if s.down = .adding .sent ∧ s.circ = .pending ∧ s.keystone = false then some { s with keystone := true }
+    else none
+  | .downSignPersist =>
+    if s.down = .adding .sent ∧ s.keystone = true ∧ s.downDur = false then some { s with downDur := true }
     else none
   | .refwdResp =>
     match s.resp with
     | some r =>
-      if s.respAcked = false ∧ s.circ = .opened then some { s with circ := .closing, mbResp := some r }
+      if s.respAcked = false ∧ s.circ = .pending ∧ s.keystone = true then
+        some { s with circ := .closing, mbResp := some r, mbRef := true, respRef := s.circRef }
       else none
     | none => none
   | .ackDup =>
-    if s.resp.isSome ∧ s.circ = .deleted then some { s with respAcked := true } else none
-  | .localReject =>
-    if s.up = .locked ∧ s.fwdFilter = false ∧ s.circ = .absent then
-      some { s with up := .removing .fail .sent, sentUp := .fail :: s.sentUp }
-    else none
-  | .sendDownAdd =>
-    if s.mbAdd = true ∧ s.circ = .halfOpen ∧ s.down = .absent ∧ s.up = .locked then
-      some { s with down := .adding .sent, mbAdd := false, downAdds := s.downAdds + 1 }
-    else none
+    if s.resp.isSome ∧ (s.circ = .deleted ∨ s.circ = .absent) then some { s with respAcked := true } else none
   | .relayUp r =>
-    if s.mbResp = some r ∧ s.up = .locked then
-      some { s with up := .removing r .sent, sentUp := r :: s.sentUp }
+    if s.mbResp = some r ∧ chanAccepts H hash s r = true then
+      some { s with up := .removing r .sent, sentUp := r :: s.sentUp, mbResp := none }
     else none
-  | .resendUp => match s.up with
-    | .removing _ .signed => some s
-    | _ => none
+  | .dropSpurious => stepDropSpurious H hash s true
+  | .upSignPersist => stepUpSignPersist s true
+  | .deleteCircuit =>
+    if s.delPending = true then
+      some { s with circ := .deleted, delPending := false, mbResp := none, mbRef := false }
+    else none
+  | .resendUp =>
+    match s.upDur, s.up with
+    | some r, .locked => some { s with up := .removing r .sent }
+    | some _, .removing _ .signed => some s
+    | _, _ => none
   | .resendDown => match s.down with
-    | .removing _ .signed => some s
+    | .removing .fail .signed => some s
     | _ => none
+  | .resendDownAdd =>
+    if s.downDur = true ∧ s.down = .absent then some { s with down := .adding .sent } else none
   | .restart => some (stepRestart s)
 
 /-- run an event list; stops (returns `none`) at the first event that is not enabled. -/
@@ -315,9 +387,15 @@ def run (s : Pair P) : List (Ev P) → Option (Pair P)
     | some s' => run s' es
     | none => none
 
-/-- "queues, mailboxes and forwarding packages are drained". -/
+/-- what the harness can observe at quiescence: no htlc of the pair on either channel. -/
+def NoHtlcs (s : Pair P) : Prop := s.up.gone = true ∧ s.down.gone = true
+
+instance (s : Pair P) : Decidable (NoHtlcs s) := by unfold NoHtlcs; infer_instance
+
+/-- "queues, mailboxes and forwarding packages are drained, circuits cleaned up". -/
 def Quiescent (s : Pair P) : Prop :=
-  s.up.stable = true ∧ s.down.stable = true ∧ s.mbAdd = false ∧ s.mbResp = none ∧
+  s.up.gone = true ∧ s.down.gone = true ∧ s.mbAdd = false ∧ s.mbResp = none ∧
+  (s.circ = .absent ∨ s.circ = .deleted) ∧ s.delPending = false ∧
   (s.up ≠ .absent → s.addAcked = true) ∧ (s.resp ≠ none → s.respAcked = true)
 
 instance (s : Pair P) : Decidable (Quiescent s) := by unfold Quiescent; infer_instance
@@ -415,8 +493,8 @@ def Obs.step (o : Obs P) : WEv P → Except Clause (Obs P)
 
 end Monitor
 
-/-- the wire event a model step shows (`none`: internal step). -/
-def Ev.wire {P : Type} : Ev P → Option (WEv P)
+/-- the wire event a model step shows in state `s` (`none`: internal step). -/
+def Ev.wireIn {P : Type} (s : Pair P) : Ev P → Option (WEv P)
   | .upAdd => some .upAdd
   | .downSettle p => some (.downSettle p)
   | .downFail => some .downFail
@@ -424,24 +502,18 @@ def Ev.wire {P : Type} : Ev P → Option (WEv P)
   | .upSigBob => some .upSigBob | .upRevBob => some .upRevBob
   | .downSigBob => some .downSigBob | .downRevBob => some .downRevBob
   | .downSigPeer => some .downSigPeer | .downRevPeer => some .downRevPeer
-  | .localReject => some .upFail
+  | .localReject _ => some .upFail
   | .sendDownAdd => some .downAdd
+  | .resendDownAdd => some .downAdd
   | .relayUp (.settle p) => some (.upSettle p)
   | .relayUp .fail => some .upFail
+  | .resendUp => match s.upDur with
+    | some (.settle p) => some (.upSettle p)
+    | some .fail => some .upFail
+    | none => none
+  | .resendDown => some .downFail
   | .restart => some .restart
   | _ => none
-
-/-- the wire event of a retransmission depends on the state (which update is re-sent). -/
-def Ev.wireIn {P : Type} (s : Pair P) : Ev P → Option (WEv P)
-  | .resendUp => match s.up with
-    | .removing (.settle p) _ => some (.upSettle p)
-    | .removing .fail _ => some .upFail
-    | _ => none
-  | .resendDown => match s.down with
-    | .removing (.settle p) _ => some (.downSettle p)
-    | .removing .fail _ => some .downFail
-    | _ => none
-  | e => e.wire
 
 /-! ## all payments of a run; balances -/
 
@@ -478,42 +550,5 @@ def bobDelta {P Hsh : Type} (g : GState P Hsh) : Int := sumInt (fun x => pairDel
 def totalFees {P Hsh : Type} (g : GState P Hsh) : Int := sumInt (fun x => pairFee x.1 x.2.up) g
 def totalDebit {P Hsh : Type} (g : GState P Hsh) : Int := sumInt (fun x => senderDebit x.1 x.2.up) g
 def totalCredit {P Hsh : Type} (g : GState P Hsh) : Int := sumInt (fun x => receiverCredit x.1 x.2.down) g
-
-/-- a global event: either an event of payment `i`, or one that hits every payment
-(`all`: commitment messages cover all htlcs of the channel, a restart hits everything;
-a payment that is not on that channel simply sees `none`). -/
-inductive GEv (P : Type) where
-  | one (i : Nat) (e : Ev P)
-  | all (f : Nat → Option (Ev P))
-
-section Global
-variable {P Hsh : Type} [DecidableEq P] [DecidableEq Hsh] (H : P → Hsh)
-
-def gstepAll (f : Nat → Option (Ev P)) : Nat → GState P Hsh → Option (GState P Hsh)
-  | _, [] => some []
-  | i, (prm, s) :: rest =>
-    match f i with
-    | none => (gstepAll f (i + 1) rest).map ((prm, s) :: ·)
-    | some e =>
-      match step H prm.hash s e, gstepAll f (i + 1) rest with
-      | some s', some rest' => some ((prm, s') :: rest')
-      | _, _ => none
-
-def gstepOne (e : Ev P) : Nat → GState P Hsh → Option (GState P Hsh)
-  | _, [] => none
-  | 0, (prm, s) :: rest => (step H prm.hash s e).map (fun s' => (prm, s') :: rest)
-  | i + 1, x :: rest => (gstepOne e i rest).map (x :: ·)
-
-def gstep (g : GState P Hsh) : GEv P → Option (GState P Hsh)
-  | .one i e => gstepOne H e i g
-  | .all f => gstepAll H f 0 g
-
-def grun (g : GState P Hsh) : List (GEv P) → Option (GState P Hsh)
-  | [] => some g
-  | e :: es => match gstep H g e with
-    | some g' => grun g' es
-    | none => none
-
-end Global
 
 end LndModel.C08
